@@ -343,6 +343,28 @@ def drive_c14(ctx):
     for cname, cid, _ in framegen.cat.CATALOG:
         k = getattr(commands, cname)
         rec.add('ClassEntry', P, nt=True, name=cname, frame_id=k.frame_id, index=k.index)
+    # the RPC metadata in use: a client that decides ONLY from the class attributes (Rpc.tla)
+    rng = ctx.rng
+    classes = [c for _, c in items]
+    byname = {c.name: c for c in classes}
+    for _ in range(30 if ctx.quick else 600):
+        rec.add('RpcReset', P)
+        pend = {}
+        for _ in range(rng.randint(3, 12)):
+            ch = rng.randint(0, 7)
+            if ch in pend:
+                want = list(pend[ch].valid_responses)
+                name = rng.choice(want) if want and rng.random() < 0.5 else rng.choice(classes).name
+                accepted = name in pend[ch].valid_responses
+                rec.add('RpcRecv', P, nt=True, ch=ch, name=str(name), accepted=bool(accepted))
+                if accepted:
+                    del pend[ch]
+            else:
+                cls = rng.choice(classes)
+                waits = bool(cls.synchronous)
+                rec.add('RpcSend', P, nt=True, ch=ch, name=str(cls.name), waits=waits)
+                if waits:
+                    pend[ch] = cls
 
 
 @driver('C17')
@@ -732,6 +754,28 @@ def fuzz_inputs(ctx, scale):
             yield 'short-value', table_frame(b'\x01k' + bytes([tag]) + b'\x01' * cut)
     for key_len in [1, 2, 200, 255]:
         yield 'key-overrun', table_frame(bytes([key_len]) + b'k')
+    # 6b. containers whose declared length ends INSIDE their last element (overlapping re-decode), nested
+    for depth in [4, 8, 12, 16, 24, 32, 48, 64]:
+        for variant in range(4 * scale):
+            v = b'V'
+            for i in range(depth):
+                if variant % 4 == 2:          # honest array around a table that declares only its key octet
+                    k = 'F' if i % 2 == 0 else 'A'
+                else:
+                    k = 'A' if variant % 4 == 0 else ('F' if variant % 4 == 1 else rng.choice('AF'))
+                body = v if k == 'A' else b'\x00' + v
+                if variant % 4 == 2:
+                    policy = 'small' if k == 'F' else 'honest'
+                else:
+                    policy = 'small' if (i % 2 == 1 or (variant % 4 == 3 and rng.random() < 0.5)) else 'honest'
+                if policy == 'honest':
+                    ln = len(body)
+                elif variant % 4 == 2:
+                    ln = 1
+                else:
+                    ln = rng.choice([0, 1, 2, 5, 6, max(0, len(body) - 1), len(body) // 2])
+                v = k.encode() + struct.pack('>I', ln) + body
+            yield 'overlap-%d' % depth, table_frame(b'\x01k' + v)
     # 7. deep nesting (<= 64)
     for d in [1, 8, 32, 60, 64]:
         for kind in 'AFx':
@@ -766,6 +810,14 @@ def drive_c08(ctx):
     # value decoders called directly are part of the public API too
     import struct
     rng = ctx.rng
+    for depth in [8, 14, 16, 20]:
+        v = b'V'
+        for i in range(depth):
+            inner = b'F' + struct.pack('>I', 1) + b'\x00' + v
+            v = b'A' + struct.pack('>I', len(inner)) + inner
+        ev = actions.decode_value(v, 'top')
+        ev['bound'] = 16 * len(v) + 256
+        ctx.rec.add('DecodeValue', ['C08'], nt=True, sigx='direct-overlap', **ev)
     for ln in LEN_VALUES + [2, 9, 100]:
         for fn, pos in (('array', 'array'), ('table', 'table')):
             b = struct.pack('>I', ln) + rng.choice([b'', b'V', b'\x01kV', b'A\x00\x00\x00\x09V'])
@@ -998,7 +1050,8 @@ def shuffled(rng, v):
     return v
 
 
-ORDER_KEYS = ['a', 'ab', 'b', '', 'é', 'B', 'a' * 128, 'a' * 127 + 'b', 'aa', 'z', '\U0001F600', '~', 'A']
+ORDER_KEYS = ['a', 'ab', 'b', '', 'é', 'B', 'a' * 128, 'a' * 127 + 'b', 'aa', 'z', '\U0001F600', '~', 'A',
+              'k' * 129, 'k' * 128 + 'x', 'k' * 200, 'é' * 127 + 'zz']        # longer than 128: cut on the wire, never in the caller's dict
 
 
 @driver('C12')
@@ -1117,5 +1170,16 @@ def drive_c16(ctx):
     for _ in range(12 if ctx.quick else 250):
         heapdrv.run_session(ctx.rec, rng, ['C16'], rng.choice([8, 14, 25]))
     replay_ladder_histories(ctx, ['C16'])
+    # failed decodes INSIDE field tables (valid envelope, broken content) interleaved with valid table-carrying
+    # frames, all in this one interpreter: whatever a failure leaves behind must not reach a later call
+    import wiregen
+    faults = [b for label, b in fuzz_inputs(ctx, 1)
+              if label.split('-')[0] in ('unknown', 'inflated', 'short', 'bad', 'key', 'huge', 'nested', 'overlap')]
+    rng.shuffle(faults)
+    for i, b in enumerate(faults[:400 if ctx.quick else 4000]):
+        ctx.rec.add('Unmarshal', ['C16'], nt=True, label='fault-history', **actions.unmarshal(b))
+        if i % 4 == 3:
+            good = wiregen.rand_method_frame(rng, rng.choice(heapdrv.WITH_TABLE), lenient=False)
+            ctx.rec.add('Unmarshal', ['C16'], nt=True, label='after-faults', wf=True, **actions.unmarshal(good))
     scheds = ctx.gen.get('schedules')
     threads.run(ctx, ['C16'], scheds, 6 if ctx.quick else 120)
